@@ -163,6 +163,34 @@ def check(ctx, xs, d, mode, calc_per, label, func, dask, entry, seed):
         if not same(got, want_o, exact):
             ctx.fail("func did not receive exactly the values at the locations inside the stretches in fibre order "
                      f"(mode={mode}, calc_per={calc_per}, func={fname})", case, detail=dict(got=short(got), want=short(want_o)))
+    # a sequence: the caller works on what it was handed (in place), then asks again — on this dataset and on a fresh one of the same
+    # size: the answers have to be the same as the first time (what is returned belongs to the caller; nothing is remembered)
+    if judged and not isinstance(got, tuple) and not dask and seed % 4 == 0:
+        import copy
+        first = copy.deepcopy(got)
+
+        def scribble(o):
+            if isinstance(o, dict):
+                for v in o.values():
+                    scribble(v)
+            elif isinstance(o, list):
+                for v in o:
+                    scribble(v)
+            elif isinstance(o, np.ndarray) and o.flags.writeable and o.size:
+                o[...] = -7
+        try:
+            raw = call_real(ds, sec, entry, mode, calc_per, label, func)
+            scribble(raw)
+            ds2 = secgen.mk_ds(xs, keys, nt=3, rng=random.Random(seed), dask=False)
+            for tag, dsx in (("the same dataset", ds), ("a fresh dataset of the same size", ds2)):
+                again = compute(call_real(dsx, sec, entry, mode, calc_per, label, func))
+                if mode in ("x_indices", "ref") and not same(again, first, exact):
+                    ctx.fail(f"after the caller edited a returned array in place, the same request on {tag} gives another answer "
+                             f"(mode={mode}, calc_per={calc_per}, func={fname})", case, detail=dict(first=short(first), again=short(again)))
+                    break
+            ctx.count("asked again after editing the returned arrays")
+        except Exception as e:  # noqa: BLE001
+            ctx.fail(f"asking again raised {type(e).__name__}: {str(e)[:200]}", case)
     starts = [a for _, v in d for a, _ in v]
     nontriv = len(starts) >= 2 and starts != sorted(starts)
     ctx.case(sig=[mode, calc_per, dask, label, fname, entry, len(starts), nontriv, len(d)], nontrivial=nontriv,
